@@ -173,8 +173,10 @@ Holds(q, d, K, o) ==
               LET ns == Cardinality({i \in DOMAIN q.should : Holds(q.should[i], d, K, o)}) IN
               /\ \A i \in DOMAIN q.must : Holds(q.must[i], d, K, o)
               /\ \A i \in DOMAIN q.mustnot : ~Holds(q.mustnot[i], d, K, o)
-              /\ IF q.must = <<>> /\ q.should # <<>>
-                 THEN ns >= (IF q.min = 0 THEN 1 ELSE q.min)
+              \* the should minimum exists only with should clauses; without a
+              \* must clause at least one should clause is needed anyway
+              /\ IF q.should = <<>> THEN TRUE
+                 ELSE IF q.must = <<>> THEN ns >= (IF q.min = 0 THEN 1 ELSE q.min)
                  ELSE ns >= q.min
 
 Matches(q, d, K) == Holds(q, d, K, RootObj)
